@@ -375,6 +375,7 @@ package logger
 //@   requires buf != nil && prefix != nil && bufSep(buf, prefix) && arr(*prefix) != nil
 //@   modifies *buf, spare(*buf), *prefix, elems(*prefix), spare(*prefix)
 //@   ensures grow: len(*buf) >= len(old(*buf)) && sameOrFresh(old(*buf), *buf) && sameOrFresh(old(*prefix), *prefix) && len(*prefix) >= len(old(*prefix)) && bufSep(buf, prefix) && arr(*prefix) != nil
+//@   ghost before call appendTextAttr assert path: len(*prefix) == ori + ite(ori > 0 && len(a.Key) > 0, 1, 0) + len(a.Key)
 //@   ensures tokens: !colorful && valEnd(old(tstK(*buf))) ==> valEnd(tstK(*buf))
 //@   loop 1
 //@     invariant -1 <= rangeindex && rangeindex < 72057594037927936 && ori == len(old(*prefix)) && len(*prefix) >= ori
@@ -401,6 +402,7 @@ package logger
 //@ func (*TextHandler).prefix
 //@   requires h != nil
 //@   modifies ghostfields(owned_prefixPool)
+//@   ensures path: len(*result) == len(h.groupPrefix) && (forall i int {(*result)[i]} :: 0 <= i && i < len(h.groupPrefix) ==> (*result)[i] == h.groupPrefix[i])
 //@   ensures result != nil && owned(result) && !old(owned(result)) && !isStructField(result) && pooled(result) && arr(*result) != nil && (fresh(arr(*result)) || (owned(*result) && !old(owned(*result)) && pooled(*result)))
 
 //@ func (*TextHandler).freePrefix
@@ -413,6 +415,7 @@ package logger
 //@   modifies ghostfields(owned_prefixPool)
 //@   ensures same: len(attrs) == 0 ==> result == any(h)
 //@   ensures derived: len(attrs) > 0 ==> typeIs(result, *TextHandler) && textHI(payload(result, *TextHandler)) && fresh(payload(result, *TextHandler)) && payload(result, *TextHandler).outMu == h.outMu && payload(result, *TextHandler).out == h.out && payload(result, *TextHandler).Options == h.Options && payload(result, *TextHandler).groupPrefix == h.groupPrefix
+//@   ghost before call appendTextAttr assert path: len(*prefix) == len(h.groupPrefix)
 //@   loop 1
 //@     invariant len(attrs) > 0 && -1 <= rangeindex && rangeindex < 72057594037927936 && h2 != nil && fresh(h2) && h2.Options == h.Options && h2.outMu == h.outMu && h2.out == h.out && h2.groupPrefix == h.groupPrefix
 //@     invariant textHI(h2)
@@ -440,6 +443,7 @@ package logger
 //@   requires buf != nil && h != nil && h.Options != nil
 //@   modifies *buf, spare(*buf), ghostfields(owned_prefixPool)
 //@   ensures trans.grow: len(*buf) >= len(old(*buf)) && sameOrFresh(old(*buf), *buf)
+//@   ghost before call appendTextAttr assert path: len(*prefix) == len(h.groupPrefix)
 //@   invariant private: ownedIn(buf, bufferPool) && (arr(*buf) == nil || ownedIn(*buf, bufferPool) || !pooled(*buf))
 //@   invariant member: !h.Options.colorful ==> valEnd(tstK(*buf))
 //@   ensures result
